@@ -159,6 +159,17 @@ class EncodeState:
                     EncodeError)
                 internal_value = int(internal_value)
 
+            # range of the values which are representable using the
+            # specified encoding and bit length
+            sign_bit = (1 << (bit_length - 1)) if bit_length > 0 else 0
+            max_value = max(sign_bit - 1, 0)
+            min_value = -sign_bit if base_type_encoding in (None, Encoding.TWOC) else -max_value
+            if base_type_encoding in (None, Encoding.ONEC, Encoding.TWOC, Encoding.SM) and \
+               not (min_value <= internal_value <= max_value):
+                odxraise(
+                    f"The value '{internal_value!r}' cannot be encoded using "
+                    f"{bit_length} bits.", EncodeError)
+
             if base_type_encoding == Encoding.ONEC:
                 # one-complement
                 if internal_value >= 0:
@@ -178,7 +189,7 @@ class EncodeState:
                 if internal_value >= 0:
                     raw_value = internal_value
                 else:
-                    raw_value = (1 << (bit_length - 1)) + abs(internal_value)
+                    raw_value = sign_bit + abs(internal_value)
             else:
                 odxraise(
                     f"Illegal encoding ({base_type_encoding and base_type_encoding.value}) specified for "
@@ -191,7 +202,7 @@ class EncodeState:
                 else:
                     raw_value = internal_value
 
-            if raw_value.bit_length() > bit_length:
+            if raw_value < 0 or raw_value.bit_length() > bit_length:
                 odxraise(
                     f"The value '{internal_value!r}' cannot be encoded using "
                     f"{bit_length} bits.", EncodeError)
